@@ -293,7 +293,8 @@ def main():
         rng.shuffle(scs)
         per_child = 12
         jobs = [{"K": K, "scenarios": scs[i:i + per_child], "targeted_yield": (i // per_child) % 4 != 3,
-                 "ty_which": ("emission", "controller", "both", "emission")[(i // per_child) % 4],
+                 "ty_which": ("emission", "controller", "both", "emission", "lifecycle", "controller", "all",
+                              "emission")[(i // per_child) % 8],
                  "ty_seed": rnd * 1000 + i} for i in range(0, len(scs), per_child)]
         res = vlib.fanout("checks.C02", jobs, c, timeout=1200)
         for r in res:
